@@ -162,3 +162,17 @@ pub fn corpus_entries() -> Vec<(String, String)> {
     out.sort();
     out
 }
+
+/// A result as one line of text: every control character and Unicode line separator is escaped, so that neither the
+/// supervisor nor the Python side (universal newlines) can split it.
+pub fn one_line(s: &str) -> String {
+    let mut out = String::with_capacity(s.len());
+    for c in s.chars() {
+        match c {
+            '\n' => out.push_str("\\n"),
+            c if (c as u32) < 0x20 || ((c as u32) >= 0x7f && (c as u32) < 0xa0) || c == '\u{2028}' || c == '\u{2029}' => out.push_str(&format!("\\u{{{:x}}}", c as u32)),
+            c => out.push(c),
+        }
+    }
+    out
+}
